@@ -3,7 +3,7 @@
 From Coq Require Import ZArith NArith List String Bool Ascii.
 From CE Require Import TableTypes.
 Import ListNotations.
-Open Scope Z_scope.
+Local Open Scope Z_scope.
 
 (* ---------- runtime shapes ---------- *)
 Record iso := mkI { mass : Z; ab : Z; neutrons : N; shift : Z }.   (* 1e-6 units *)
